@@ -359,6 +359,11 @@ class EditStream(HTMLHandlerBase):
         except (ValueError, CsrfFailureException) as err:
             logging.info('CSRF failure: %s', err)
             return jsonify({'error': 'CSRF failure'}, 401)
+        if current_stream.periods:
+            names = sorted({p.parent.name for p in current_stream.periods})
+            return jsonify({
+                'error': f'Stream is used by multi-period stream {", ".join(names)}',
+            }, 409)
         models.db.session.delete(current_stream)
         models.db.session.commit()
         flask.flash(f'Deleted stream "{current_stream.title}"', 'success')
@@ -456,6 +461,11 @@ class DeleteStream(DeleteModelBase):
             'view-stream', spk=current_stream.pk)
 
     def delete_model(self) -> JsonObject:
+        if current_stream.periods:
+            names = sorted({p.parent.name for p in current_stream.periods})
+            error = f'Stream is used by multi-period stream {", ".join(names)}'
+            flask.flash(error, 'error')
+            return {"error": error}
         result = {
             "deleted": current_stream.pk,
             "title": current_stream.title,
